@@ -537,6 +537,10 @@ func genC35(seed uint64, tier string) *Case {
 	for i := 0; i < 2+g.Intn(6); i++ {
 		c.Steps = append(c.Steps, Step{Op: "reply", K: g.Pick(0, 1, 2, 3, 4, 8, 255), F: g.Bool(0.5)})
 		if g.Bool(0.3) {
+			// sends to one member fail while this reply goes out (i = 1 + its index)
+			c.Steps[len(c.Steps)-1].I = 1 + g.Intn(8)
+		}
+		if g.Bool(0.3) {
 			k := g.Intn(8)
 			c.Steps = append(c.Steps, Step{Op: "member", I: k, J: g.Pick(2, 4, 5, 5), S: []string{"alive", "leaving", "left", "failed"}[g.Intn(4)]})
 		}
@@ -606,6 +610,17 @@ func execC35(r *Run) {
 			msg := wEnc(mtQuery, &wQuery{LTime: lt, ID: id, Addr: net.ParseIP(origin.IP).To4(), Port: uint16(origin.Port), SourceNode: origin.Name,
 				Flags: flags, RelayFactor: uint8(s.K), Timeout: 5 * time.Second, Name: "rq", Payload: []byte("p")})
 			members := nd.S.Members()
+			failedTo := map[string]int{}
+			if s.I > 0 {
+				bad := net.JoinHostPort(fmt.Sprintf("10.0.2.%d", s.I), "7946")
+				nd.Tr.WriteErr = func(to string) error {
+					if to == bad {
+						failedTo[to]++
+						return fmt.Errorf("sendto %s: network is unreachable", to)
+					}
+					return nil
+				}
+			}
 			p0 := len(c.Packets)
 			c.DeliverMsg(&Msg{To: 0, Buf: msg})
 			if s.F {
@@ -621,10 +636,17 @@ func execC35(r *Run) {
 				c.Drain(0)
 			}
 			c.Wait()
+			nd.Tr.WriteErr = nil
 			sent := sentSince(c, p0)
 			c.Bag = nil
 			drainAll(c, 0)
 			r.NonTrivial = true
+			for to, n := range failedTo {
+				r.Fault("relay-send-failed")
+				if n > 1 {
+					r.Fail("relay-duplicate-peer", "C35 relay-duplicate", "%d sends of one reply were attempted to the same member %s (each of them failed)", n, to)
+				}
+			}
 			eligible := map[string]string{} // addr -> name
 			for _, m := range members {
 				if m.Status == serf.StatusAlive && m.ProtocolMax >= 5 && m.Name != nd.Name {
